@@ -237,6 +237,11 @@ def _assign_ids(prj, rng, t, used_ids, predefined=False, edge=False):
         if h not in used_ids["handle"]:
             used_ids["handle"].add(h)
             break
+    # the structure handle is a 16-bit checksum of the definition: two DIFFERENT templates may legitimately report the same one;
+    # a type is identified by its template instance id, never by its handle
+    others = sorted(x.handle for x in prj.types.values() if x.handle is not None and x is not t)
+    if others and rng.random() < 0.06:
+        h = rng.choice(others)
     t.template_id, t.handle = tid, h
     prj.types[t.name] = t
     prj.by_template[tid] = t
